@@ -257,7 +257,7 @@ def h_ifexp(cls):
 
 
 def harnesses(tier):
-    from props import C04_compare, C04_functions
+    from props import C04_compare, C04_functions, C04_scope
     hs = []
     for cls in ('TransactionEvaluator', 'ExpressionEvaluator'):
         for is_and in (True, False):
@@ -267,7 +267,7 @@ def harnesses(tier):
         hs.append(Harness('%s._eval_IfExp' % cls, h_ifexp(cls), [EP + cls + '._eval_IfExp']))
     hs.append(Harness('lemma.first_stop', h_boolop_lemmas, []))
     hs.append(Harness('laws', h_laws, []))
-    return hs + C04_compare.harnesses(tier) + C04_functions.harnesses(tier)
+    return hs + C04_compare.harnesses(tier) + C04_functions.harnesses(tier) + C04_scope.harnesses(tier)
 
 
 ORACLES = [
